@@ -106,14 +106,16 @@ ValidDescr(st, P, slot, gs2t, authorT, yv) ==
   IN IF gs2t # <<>> THEN Descr(authorT, se, "t", gs2t[m2 + 1].att, gs2t[m2 + 1].id, yv, emhas, tmhas)
      ELSE Descr(-1, se, "f", 0, 0 - (10 + yv), yv, emhas, tmhas)
 
+\* (an epoch mark with fewer than V validators or a tickets mark with fewer than E entries cannot be
+\* encoded at all: the codec refuses it, C13)
 Defects == {"s_out", "s_eta", "s_att", "s_key", "s_msg", "s_mode", "s_zero", "f_author",
             "v_ctx", "v_key", "v_msg", "v_zero", "a_V", "a_big",
-            "em_flip", "em_e0", "em_e1", "em_swap", "em_short", "tm_flip", "tm_sorted", "om", "xh", "sr"}
+            "em_flip", "em_e0", "em_e1", "em_swap", "tm_flip", "tm_sorted", "om", "xh", "sr"}
 \* defects that need a particular situation: ticket mode / fallback mode / a mark present
 Applicable(d, desc) ==
   CASE d \in {"s_out", "s_att"} -> desc.seal.mode = "t"
     [] d = "f_author" -> desc.seal.mode = "f"
-    [] d \in {"em_e0", "em_e1", "em_swap", "em_short"} -> desc.em.has = 1
+    [] d \in {"em_e0", "em_e1", "em_swap"} -> desc.em.has = 1
     [] d = "tm_sorted" -> desc.tm.has = 1
     [] OTHER -> TRUE
 Apply(desc, d, P) ==
@@ -135,7 +137,6 @@ Apply(desc, d, P) ==
     [] d = "em_e0" -> [desc EXCEPT !.em.var = "e0"]
     [] d = "em_e1" -> [desc EXCEPT !.em.var = "e1"]
     [] d = "em_swap" -> [desc EXCEPT !.em.var = "swap"]
-    [] d = "em_short" -> [desc EXCEPT !.em.var = "short"]
     [] d = "tm_flip" -> [desc EXCEPT !.tm.has = 1 - desc.tm.has]
     [] d = "tm_sorted" -> [desc EXCEPT !.tm.var = "sorted"]
     [] d = "om" -> [desc EXCEPT !.om = 1]
